@@ -102,7 +102,7 @@ class RaggedHistory(Engine):
                     'how': rng.choice(['raise', 'badshape', 'unconvertible'])}
         if k == 'append_bad':
             return {'op': 'append', 'item': dict(self.gen_item(rng), rows=rng.choice([1, 2]), form='ndarray'),
-                    'bad': rng.choice(['shape', 'rank+', 'rank-', 'unconvertible', 'overflow'])}
+                    'bad': rng.choice(['shape', 'rank+', 'rank-', 'unconvertible', 'overflow', 'shape_empty', 'rank+_empty'])}
         if k == 'truncate':
             return {'op': 'truncate', 'index': rng.choice([0, 0, 1, 2, 3, 5, -1, -1, -2, -3, 7, 30]),
                     'by': rng.choice(['handle', 'handle', 'path', 'strpath'])}
@@ -437,6 +437,10 @@ class _RState:
         d = dict(op['item'])
         bad = op['bad']
         atom = list(self.atom)
+        if bad == 'shape_empty':
+            return np.zeros([0] + atom[:-1] + [atom[-1] + 1], dtype=self.dtype) if atom else np.zeros([3, 0], dtype=self.dtype)
+        if bad == 'rank+_empty':
+            return np.zeros([2] + atom + [0], dtype=self.dtype)
         if bad == 'shape':
             d['trail'] = (atom[:-1] + [atom[-1] + 1]) if atom else [2]
         elif bad == 'rank+':
